@@ -106,6 +106,13 @@ fn run_case(lines: &[String], out: &mut impl Write) {
                         h.update(&tok).unwrap();
                         deadlines.last().unwrap().1.set(Some(nd));
                     }
+                    if w.iter().any(|x| *x == "park") {
+                        // the armed timer is given a deadline that cannot be represented (set_duration(MAX) + update):
+                        // from then on nothing is armed
+                        disp.as_source_mut().set_duration(Duration::MAX);
+                        h.update(&tok).unwrap();
+                        deadlines.last().unwrap().1.set(None);
+                    }
                     keep.push(Box::new(disp));
                     if let Some(op) = w.iter().find(|x| **x == "cancel" || **x == "disable") {
                         between.push((deadlines.len() - 1, op.to_string(), tok));
